@@ -8,15 +8,17 @@ Open Scope string_scope.
 (* B = any text in which tag pairs (with arbitrary bodies) and plain lines alternate arbitrarily.  The new
    content of B is B with the body of every pair whose cleaned name is a tag of A replaced by A's body; all
    other lines (text outside pairs, the tag lines themselves, bodies of pairs that exist only in B) are kept
-   byte for byte, in order.  (The model writes nothing but B: A is not an output of [file_sync].) *)
+   byte for byte, in order.  (The model writes nothing but B: A is not an output of [file_sync].)  A is ANY file: every key CollectFile produces
+   contains the tag prefix (Proofs/CleanProofs.v: CleanUpLine never removes a character of the prefix, a source-derived
+   obligation over the pattern chain). *)
 Theorem C18_shared_replaced_rest_untouched : forall a (B : list bitem_s),
-  lines_okb (bflatten_s B) = true -> keys_pfx_s (tags_of a) -> Forall (wf_bitem_s (tags_of a)) B ->
+  lines_okb (bflatten_s B) = true -> Forall (wf_bitem_s (tags_of a)) B ->
   file_sync a (concat_lines (bflatten_s B)) = concat_lines (synced_s (tags_of a) B).
 Proof. exact sync_bytes. Qed.
 Print Assumptions C18_shared_replaced_rest_untouched.
 
 Theorem C18_idempotent : forall a (B : list bitem_s),
-  lines_okb (bflatten_s B) = true -> keys_pfx_s (tags_of a) -> Forall (wf_bitem_s (tags_of a)) B ->
+  lines_okb (bflatten_s B) = true -> Forall (wf_bitem_s (tags_of a)) B ->
   bodies_ok_s (tags_of a) -> lines_okb (synced_s (tags_of a) B) = true ->
   let b1 := file_sync a (concat_lines (bflatten_s B)) in
   file_sync a b1 = b1.
